@@ -254,9 +254,14 @@ class Init(Contract):
             out.append(("copies-letter-annotations",
                         tm.eq(pre.get(pre.get(src, "letter_annotations"), "rep").t,
                               st.get(st.get(self_, "letter_annotations"), "rep").t)))
-            # ownership ghost: the mutable containers of the copy are not those of the original
+            # ownership ghost: the mutable containers of the copy are not those of the original, and share nothing
+            # mutable with them (obtained by copy.deepcopy, not by dict()/list()/slicing); dbxrefs is a list of
+            # strings: a new list suffices
             for f in ("annotations", "letter_annotations"):
                 out.append(("fresh-" + f, tm.B(st.get(self_, f) is not pre.get(src, f))))
+            for f in ("annotations", "features", "letter_annotations"):
+                out.append(("deep-copy-of-" + f, tm.B(getattr(st.get(self_, f), "fresh", None) == "deep")))
+            out.append(("copy-of-dbxrefs", tm.B(getattr(st.get(self_, "dbxrefs"), "fresh", None) in ("deep", "shallow"))))
             a0, a1 = ann_items(pre, src), ann_items(st, self_)
             out.append(("copies-annotations", tm.and_(tm.B(set(a0) == set(a1)),
                                                       *[tm.eq(a0[k].t, a1[k].t) for k in a0 if k in a1])))
@@ -273,14 +278,17 @@ class Init(Contract):
         self_, src = a["self"], a["seq"]
         if isinstance(src, VObj) and src.kind != "Seq":
             st.set_inplace(self_, "seq", ex.models.mk_seq(st, text(ex, st, src)))
-            for f in ("id", "name", "description", "features", "dbxrefs"):
+            for f in ("id", "name", "description"):
                 st.set_inplace(self_, f, st.get(src, f))
+            for f in ("features", "dbxrefs"):
+                v_ = st.get(src, f)
+                st.set_inplace(self_, f, M.tag_fresh(VT(v_.t, v_.py), "deep") if isinstance(v_, VT) else v_)
             la = VObj("LetAnn")
             st.set_inplace(la, "rep", st.get(st.get(src, "letter_annotations"), "rep"))
-            st.set_inplace(self_, "letter_annotations", la)
+            st.set_inplace(self_, "letter_annotations", M.tag_fresh(la, "deep"))
             d = VDict(M.new_oid())
             st.set_inplace(d, "items", dict(ann_items(st, src)))
-            st.set_inplace(self_, "annotations", d)
+            st.set_inplace(self_, "annotations", M.tag_fresh(d, "deep"))
         else:
             st.set_inplace(self_, "seq", src)
             for f, dflt in (("id", "<unknown id>"), ("name", "<unknown name>"),
